@@ -393,3 +393,57 @@ def dec_file(lay, data):
             ents.append((i, dec_record(lay, k, rd, db["minor"])))
         db[k] = ents
     return db
+
+
+def canon(lay, db):
+    """canonical, index-free form of a parsed database: key -> record with references replaced by keys"""
+    keyof = {}
+    for kind in KINDS:
+        for i, r in db[kind]:
+            nm = r.get("_true_name") if kind == "type" else (r.get("_unique_name") if kind == "wrapper" else r.get("_scoped_name", r.get("_name")))
+            if kind == "manifest":
+                nm = r["_name"]
+            keyof[i] = (kind, nm)
+    out = {}
+    dup = []
+    for kind in KINDS:
+        im = lay.index_members[kind]
+        for i, r in db[kind]:
+            c = {}
+            for f in lay.out[kind]:
+                name = f[1]
+                v = r[name]
+                if f[0] == "recs":
+                    v2 = []
+                    for s in v:
+                        s2 = {}
+                        for a in f[2]:
+                            key = name + "." + a[1]
+                            s2[a[1]] = (keyof.get(s[a[1]], ("dangling", s[a[1]])) if s[a[1]] != 0 else None) if key in im else s[a[1]]
+                        v2.append(tuple(sorted(s2.items())))
+                    c[name] = tuple(v2)
+                elif name in im:
+                    if isinstance(v, list):
+                        c[name] = tuple(keyof.get(x, ("dangling", x)) if x != 0 else None for x in v)
+                    else:
+                        c[name] = keyof.get(v, ("dangling", v)) if v != 0 else None
+                else:
+                    c[name] = tuple(v) if isinstance(v, list) else v
+            k = keyof[i]
+            if k in out:
+                dup.append(k)
+            out[k] = c
+    return out, dup
+
+
+
+
+def uniquify(db, tag=""):
+    """give every entry a unique identifying name (so that canon() keys are unique)"""
+    for kind in KINDS:
+        for i, r in db[kind]:
+            base = ("%s%s%d" % (tag, kind[0], i)).encode()
+            for key in ("_name", "_scoped_name", "_true_name", "_unique_name"):
+                if key in r:
+                    r[key] = base
+    return db
